@@ -1,0 +1,44 @@
+//go:build verif
+
+// Contracts for package ja3, checked by /verif/govc (comment-only file).
+package ja3
+
+//@ -- GREASE values (RFC 8701): 0x0a0a, 0x1a1a, ..., 0xfafa
+//@ pure func grease(v int) bool = 0 <= v && v < 65536 && v / 256 == v % 256 && v % 16 == 10
+
+//@ -- the kept (non-GREASE) values among the first n, in order, as decimals joined by '-'
+//@ pure func joinK(xs seq[uint16], n int) string = ite(n <= 0, "", ite(grease(xs[n-1]), joinK(xs, n-1), ite(len(joinK(xs, n-1)) > 0, joinK(xs, n-1) ++ "-", "") ++ dec(xs[n-1])))
+//@ -- all of the first n values as decimals joined by '-'
+//@ pure func joinA(xs seq[uint8], n int) string = ite(n <= 0, "", ite(n == 1, "", joinA(xs, n-1) ++ "-") ++ dec(xs[n-1]))
+//@ pure func dashIf(s string) string = ite(len(s) > 0, s ++ "-", s)
+
+//@ -- the JA3 string of a parsed ClientHello, from the property statement
+//@ pure func ja3str(h *tlsx.ClientHelloBasic) string = dec(h.HandshakeVersion) ++ "," ++ joinK(h.CipherSuites, len(h.CipherSuites)) ++ "," ++ joinK(h.AllExtensions, len(h.AllExtensions)) ++ "," ++ joinK(h.SupportedGroups, len(h.SupportedGroups)) ++ "," ++ joinA(h.SupportedPoints, len(h.SupportedPoints))
+
+//@ globalinv [C01:grease-table] greaseValues != nil && (forall v uint16 :: (mapHas(greaseValues, v) && mapGet(greaseValues, v)) <==> grease(v))
+//@ globalinv [C01:separators] sepValueByte == 45 && sepFieldByte == 44
+
+//@ func Bare :: hello -> result
+//@   props C01,C10
+//@   requires hello != nil
+//@   assigns nothing
+//@   ensures [C01:ja3-string] result == ja3str(hello)
+//@   loop 1 invariant lastElem == len(hello.CipherSuites) - 1 && -1 <= rangeindex && rangeindex < lastElem
+//@   loop 1 invariant [C01:ciphers] buffer == dec(hello.HandshakeVersion) ++ "," ++ dashIf(joinK(hello.CipherSuites, rangeindex+1))
+//@   loop 2 invariant lastElem == len(hello.AllExtensions) - 1 && -1 <= rangeindex && rangeindex < lastElem
+//@   loop 2 invariant [C01:extensions] buffer == dec(hello.HandshakeVersion) ++ "," ++ joinK(hello.CipherSuites, len(hello.CipherSuites)) ++ "," ++ dashIf(joinK(hello.AllExtensions, rangeindex+1))
+//@   loop 3 invariant lastElem == len(hello.SupportedGroups) - 1 && -1 <= rangeindex && rangeindex < lastElem
+//@   loop 3 invariant [C01:groups] buffer == dec(hello.HandshakeVersion) ++ "," ++ joinK(hello.CipherSuites, len(hello.CipherSuites)) ++ "," ++ joinK(hello.AllExtensions, len(hello.AllExtensions)) ++ "," ++ dashIf(joinK(hello.SupportedGroups, rangeindex+1))
+//@   loop 4 invariant lastElem == len(hello.SupportedPoints) - 1 && -1 <= rangeindex && rangeindex < lastElem
+//@   loop 4 invariant [C01:points] buffer == dec(hello.HandshakeVersion) ++ "," ++ joinK(hello.CipherSuites, len(hello.CipherSuites)) ++ "," ++ joinK(hello.AllExtensions, len(hello.AllExtensions)) ++ "," ++ joinK(hello.SupportedGroups, len(hello.SupportedGroups)) ++ "," ++ dashIf(joinA(hello.SupportedPoints, rangeindex+1))
+
+//@ func BareToDigestHex :: bare -> result
+//@   props C01
+//@   assigns nothing
+//@   ensures [C01:md5-hex] result == hexstr(md5sum(bare))
+
+//@ func DigestHex :: hello -> result
+//@   props C01
+//@   requires hello != nil
+//@   assigns nothing
+//@   ensures [C01:digest-of-ja3] result == hexstr(md5sum(ja3str(hello)))
